@@ -206,6 +206,13 @@ func factsDedup() {
 	nsb := body(fn(f, "", "newDedupSeries"))
 	emitList("dedupNewSeriesCounter", "pkg/dedup/iter.go newDedupSeries: argument of isCounter (the field that selects the counter wrapper)", callArgs(nsb, "isCounter"))
 
+	// C01, set level: how dedupSeriesSet decides that the peeked series is a replica of the current one
+	dsn := body(fn(f, "dedupSeriesSet", "next"))
+	emitList("dedupSetNextConds", "pkg/dedup/iter.go dedupSeriesSet.next: its if-conditions (the second one is the grouping comparison)", ddIfConds(dsn))
+	emitStr("dedupSetNextLset", "pkg/dedup/iter.go dedupSeriesSet.next: the label set compared with the current one", firstAssignText(dsn, "nextLset"))
+	dsN := body(fn(f, "dedupSeriesSet", "Next"))
+	emitList("dedupSetCurLset", "pkg/dedup/iter.go dedupSeriesSet.Next: values assigned to s.lset", assignsTo(dsN, "s.lset"))
+
 	// C02: counter adjustment
 	adj := body(fn(f, "counterErrAdjustSeriesIterator", "adjustAtValue"))
 	emitStr("ctrAdjustCond", "pkg/dedup/iter.go counterErrAdjustSeriesIterator.adjustAtValue: when the replica is adjusted", firstIfCond(adj, "lastFloatValue"))
